@@ -164,6 +164,543 @@ solver = Contract(
     options={"samples": _samples_solver},
 )
 
+# ------------------------------------------------------------------ direction increments (midpoint rule on the circle)
+import pyvc.terms as T
+
+
+def wrap_pi(x):
+    """(x + pi) % (2 pi) - pi: the wrapped difference into [-pi, pi)"""
+    if is_symbolic(x):
+        return T.sub(T.mod(T.add(x, T.PI), T.mul(2, T.PI)), T.PI)
+    import math
+    return (x + math.pi) % (2 * math.pi) - math.pi
+
+
+def increment_spec(d, n, j):
+    """half the sum of the wrapped forward and backward differences at grid point j"""
+    if is_symbolic(j, n) or hasattr(d, "_a"):
+        nxt = If(j + 1 < n, d[If(j + 1 < n, j + 1, 0)], d[0])
+        prv = If(j >= 1, d[If(j >= 1, j - 1, 0)], d[n - 1])
+        return (wrap_pi(nxt - d[j]) + wrap_pi(d[j] - prv)) / 2
+    n = int(n)
+    return (wrap_pi(float(d[(j + 1) % n]) - float(d[j])) + wrap_pi(float(d[j]) - float(d[(j - 1) % n]))) / 2
+
+
+def _wit_increment():
+    import numpy as np
+    out = [("", {"directions_radians": np.linspace(0, 2 * np.pi, 24, endpoint=False)}),
+           ("", {"directions_radians": np.array([0.1, 0.5, 2.0, 3.0, 4.5, 6.0])}),
+           ("", {"directions_radians": np.array([1.0])}),
+           ("", {"directions_radians": (np.linspace(0, 2 * np.pi, 7, endpoint=False) + 5.0) % (2 * np.pi)})]
+    return [(lambda w=w: w) for w in out]
+
+
+direction_increment = Contract(
+    E + "utils.py::get_direction_increment",
+    params=lambda mk: {"directions_radians": mk.array("d", (mk.size("N"),))},
+    requires=[("grid", lambda a: _n(a.directions_radians) >= 1)],
+    ensures=[("mean_of_wrapped_forward_and_backward_difference",
+              lambda a, r: And(_n(r) == _n(a.directions_radians),
+                               forall(0, _n(a.directions_radians), lambda j: eq(r[j], increment_spec(a.directions_radians, _n(a.directions_radians), j)))))],
+    witness=_wit_increment(),
+    options={"result": lambda mk, a: mk.array("dtheta", mk.st.deref(a.directions_radians).shape)},
+)
+
+# ---- lemmas over the spec function of the increments (mirroring C02's bin-width lemmas)
+class _GridView:
+    def __init__(self, fn):
+        self._fn = fn
+        self._a = None      # marks a symbolic grid for increment_spec
+
+    def __getitem__(self, j):
+        return self._fn(T.to_z3(j))
+
+
+def _lemma_uniform_increments():
+    """on the uniform grid g_j = (theta_0 + j 360/N) pi/180 with N >= 3 every midpoint increment is (360/N) pi/180"""
+    import z3
+    N, j = z3.Ints("N_l j_l")
+    th0 = z3.Real("theta0_l")
+    g = _GridView(lambda k: (th0 + z3.ToReal(k) * (z3.RealVal(360) / z3.ToReal(N))) * (T.PI / 180))
+    return [N >= 3, j >= 0, j < N], eq(increment_spec(g, N, j), step_rad(N))
+
+
+def _lemma_step_is_two_pi_over_n():
+    import z3
+    N = z3.Int("N_l")
+    return [N >= 1], eq(step_rad(N), 2 * T.PI / z3.ToReal(N))
+
+
+def _asc_hyps(d, N):
+    import z3
+    j = z3.Int("gj")
+    return [N >= 3, z3.ForAll([j], z3.Implies(z3.And(0 <= j, j < N - 1), z3.And(d(j + 1) - d(j) > 0, d(j + 1) - d(j) < T.PI))),
+            d(N - 1) - d(0) < 2 * T.PI, d(N - 1) - d(0) > T.PI]
+
+
+def _asc_setup():
+    import z3
+    d = z3.Function("d_l", T.IntS, T.RealS)
+    N, n = z3.Ints("N_l n_l")
+    g = _GridView(lambda k: d(k))
+    S_ = SumOf(lambda j: increment_spec(g, N, j))
+    closed = lambda m: (d(m) + d(m - 1) - d(0) - d(N - 1) + 2 * T.PI) / 2
+    return d, N, n, (lambda m: S_(0, m)), closed
+
+
+def _lemma_increments_prefix_base():
+    d, N, n, pref, closed = _asc_setup()
+    return _asc_hyps(d, N), And(eq(pref(0), 0), eq(pref(1), closed(1)))      # both applications, so that the empty-sum and split-last schemas relate them
+
+
+def _lemma_increments_prefix_step():
+    """induction step of  sum_{j<n} increment_j = (d_n + d_{n-1} - d_0 - d_{N-1} + 2 pi) / 2  for 1 <= n <= N-1"""
+    d, N, n, pref, closed = _asc_setup()
+    return _asc_hyps(d, N) + [n >= 1, n + 1 <= N - 1, pref(n) == closed(n)], eq(pref(n + 1), closed(n + 1))
+
+
+def _lemma_increments_total():
+    d, N, n, pref, closed = _asc_setup()
+    return _asc_hyps(d, N) + [pref(N - 1) == closed(N - 1)], eq(pref(N), 2 * T.PI)
+
+
+LEMMAS = [Lemma("direction_increment.uniform_grid_all_increments_equal_the_step", _lemma_uniform_increments,
+                "uniform ascending grid of N >= 3 directions: every midpoint increment is (360/N) pi/180"),
+          Lemma("direction_increment.step_is_two_pi_over_n", _lemma_step_is_two_pi_over_n, "(360/N) (pi/180) = 2 pi / N"),
+          Lemma("direction_increment.prefix_sum_base", _lemma_increments_prefix_base, "n = 1"),
+          Lemma("direction_increment.prefix_sum_step", _lemma_increments_prefix_step, "induction step on an ascending grid with gaps < pi covering the circle"),
+          Lemma("direction_increment.increments_sum_to_two_pi", _lemma_increments_total, "with the prefix identity at n = N-1: the increments sum to 2 pi")]
+
+# ------------------------------------------------------------------ estimate.py: dispatch, reshape, degrees Jacobian
+# The point estimators are modelled as uninterpreted functions of the direction index and of ONE row's own four moments (for
+# the direction grid of the call): a row of the result can then only be shown to be "the estimator applied to that row's
+# moments" if the code hands every row its own inputs (batch independence), as in C08's batch loops.
+import z3 as _z3
+import pyvc.models.npshape_est   # noqa  (assumed contracts: ndarray.reshape, numpy.prod; separate from C15's npshape.py: two builders wrote one each)
+from pyvc.values import Arr as _Arr
+
+_R5 = [T.IntS] + [T.RealS] * 4
+EST_UF = {v: _z3.Function("estimator_" + v, *_R5, T.RealS) for v in ("mem", "scipy", "newton", "approximate")}
+
+
+def est_term(variant, j, m):
+    """density (per radian) at direction index j of the estimate for the moment quadruple m = (a1, b1, a2, b2)"""
+    return EST_UF[variant](T.to_z3(j), *[T.to_real(T.to_z3(x)) for x in m])
+
+
+def step_rad(N):
+    """the uniform bin width in radians, written as (bin width in degrees) * pi / 180  (= 2 pi / N, lemma below)"""
+    if is_symbolic(N):
+        return T.mul(T.div(360, N), T.div(T.PI, 180))
+    import math
+    return 360.0 / N * math.pi / 180
+
+
+def uniform_degrees(direction, N):
+    """ascending uniform grid: direction[j] = direction[0] + j * 360 / N"""
+    if hasattr(direction, "_a") or is_symbolic(N):
+        return forall(0, N, lambda j: eq(direction[j], direction[0] + j * T.div(360, N)), "ju")
+    import numpy as np
+    d = np.asarray(direction, dtype="float64")
+    return bool(np.allclose(d, d[0] + np.arange(len(d)) * 360.0 / len(d), rtol=0, atol=1e-9))
+
+
+def _variant_of(method, solution_method):
+    m = method.lower() if isinstance(method, str) else None
+    if m in ("maximum_entropy_method", "mem"):
+        return "mem"
+    if m in ("maximum_entrophy_method2", "mem2"):
+        return solution_method if solution_method in ("scipy", "newton", "approximate") else None
+    return None
+
+
+class EstimatorModel:
+    """result builder of the callee contracts of `mem` / `mem2` (signature: directions_radians, a1, b1, a2, b2, progress, ...).
+
+    Call-site obligations: the grid handed over is the caller's direction grid times pi/180, the four moment arrays have one
+    (points, frequencies) shape.  Result: array (points, frequencies, N) whose cell [p, i, j] is the estimator function at j of
+    the moments the CALLEE received in cell [p, i].  Assumed (the estimator's own contract, on a uniform grid with N >= 3 and for
+    a1^2 + b1^2 < 1): every row is non-negative and sums to one with the uniform bin width in radians."""
+
+    def __init__(self, which):
+        self.which = which
+
+    def variant(self, mk, a):
+        if self.which == "mem":
+            return "mem"
+        sm = mk.st.deref(a.solution_method)
+        if sm not in ("scipy", "newton", "approximate"):
+            from pyvc.interp import PyRaise
+            from pyvc.values import ExcVal
+            raise PyRaise(ExcVal("ValueError", ("Unknown method",)))
+        return sm
+
+    def __call__(self, mk, a):
+        st, ctx = mk.st, mk.ctx
+        v = self.variant(mk, a)
+        direction = st.deref(ctx.args["direction"])
+        N = direction.shape[0]
+        g = st.deref(a.directions_radians)
+        ok = isinstance(g, _Arr) and g.ndim == 1
+        ctx.oblige(st, f"pre.{self.which}.grid_is_the_callers_direction_grid_in_radians",
+                   And(eq(g.shape[0], N), forall(0, N, lambda j: eq(g.get((j,)), direction.get((j,)) * T.div(T.PI, 180)), "jg")) if ok else False)
+        ms = [st.deref(x) for x in (a.a1, a.b1, a.a2, a.b2)]
+        ok = all(isinstance(x, _Arr) and x.ndim == 2 for x in ms)
+        ctx.oblige(st, f"pre.{self.which}.moments_are_points_by_frequencies_arrays_of_one_shape",
+                   And(*[And(eq(x.shape[0], ms[0].shape[0]), eq(x.shape[1], ms[0].shape[1])) for x in ms[1:]]) if ok else False)
+        if not ok:
+            raise Unsupported("estimator called with something that is not a 2-d array")
+        npnt, nf = ms[0].shape
+        res = _Arr((npnt, nf, N), lambda ix, ms=ms, v=v: est_term(v, ix[2], [x.get((ix[0], ix[1])) for x in ms]), (), "real")
+        D = lambda p, i, j: res.get((p, i, j))
+        inside = lambda p, i: ms[0].get((p, i)) * ms[0].get((p, i)) + ms[1].get((p, i)) * ms[1].get((p, i)) < 1
+        st.assume(T.to_z3(forall(0, npnt, lambda p: forall(0, nf, lambda i: implies(inside(p, i), And(
+            forall(0, N, lambda j: D(p, i, j) >= 0, "jn"),
+            eq(Sum(0, N, lambda j: D(p, i, j) * step_rad(N)), 1))), "ie"), "pe")))
+        return st.alloc(res, "estimate")
+
+
+MEM_BATCH = CalleeContract(E + "mem.py::mem", EstimatorModel("mem"), assumed=True,
+                           note="MEM (Lygre & Krogstad): each (point, frequency) row is a function of that row's own moments, >= 0 with unit integral "
+                                "(2 pi / N bins) for a1^2+b1^2 < 1 - bounded on the real code (complex arithmetic)")
+MEM2_BATCH = CalleeContract(E + "mem2.py::mem2", EstimatorModel("mem2"), assumed=True,
+                            note="MEM2: each row is a function of that row's own moments (the batch loops and the dispatch on solution_method are verified below; "
+                                 "the distribution constructor and every exit of the Newton solver are verified >= 0 with unit integral; scipy's root finder is a library)")
+
+
+def _p_estimate(method, kwargs, rank):
+    def p(mk):
+        N, nf = mk.size("N"), mk.size("nf")
+        if rank == 1:
+            shape = (nf,)
+        elif rank == 2:
+            shape = (mk.size("np"), nf)
+        else:
+            shape = (mk.size("np"), 3, nf)
+        d = {k: mk.array(k, shape) for k in ("a1", "b1", "a2", "b2")}
+        d["direction"] = mk.array("direction", (N,))
+        d["method"] = method
+        d.update(kwargs)
+        return d
+    return p
+
+
+def _lead(a):
+    """index tuples of the leading (batch) dimensions -> (ranges, cell getter)"""
+    return a.a1.shape[:-1]
+
+
+def _forall_rows(a, fn):
+    """fn(lead index tuple, frequency index) for every row of the batch"""
+    shape = a.a1.shape if hasattr(a.a1, "shape") else None
+    lead, nf = tuple(shape[:-1]), shape[-1]
+
+    def rec(k, ix):
+        if k == len(lead):
+            return forall(0, nf, lambda i: fn(ix, i), "i")
+        return forall(0, lead[k], lambda p: rec(k + 1, ix + (p,)), "p%d" % k)
+    return rec(0, ())
+
+
+def _row_m(a, ix, i):
+    return [x[ix + (i,)] for x in (a.a1, a.b1, a.a2, a.b2)]
+
+
+def _native_row(a, variant, ix, i):
+    """the estimator applied to this row alone (real code): per-radian density over the grid"""
+    import numpy as np
+    from ocean_science_utilities.wavespectra.estimators.mem import mem
+    from ocean_science_utilities.wavespectra.estimators.mem2 import mem2
+    cache = a.__dict__.setdefault("_rowcache", {})
+    key = (variant, ix, i)
+    if key not in cache:
+        m = [np.array([[float(x[ix + (i,)])]]) for x in (a.a1, a.b1, a.a2, a.b2)]
+        g = np.asarray(a.direction, dtype="float64") * (np.pi / 180)      # exactly the product estimate.py forms (the Newton iteration is sensitive to the last bit)
+
+        class _P:
+            def update(self, n):
+                pass
+        cache[key] = (mem(g, *m, _P()) if variant == "mem" else mem2(g, *m, _P() if variant == "scipy" else None, solution_method=variant))[0, 0, :]
+    return cache[key]
+
+
+def _est_variant(a):
+    return _variant_of(a.method, a.__dict__.get("solution_method", "newton"))
+
+
+def _post_rows(a, r):
+    v = _est_variant(a)
+    N = _n(a.direction)
+    if hasattr(a.a1, "_a"):
+        return _forall_rows(a, lambda ix, i: forall(0, N, lambda j: eq(r[ix + (i, j)], est_term(v, j, _row_m(a, ix, i)) * T.div(T.PI, 180)), "j"))
+    import numpy as np
+    return _forall_rows(a, lambda ix, i: bool(np.allclose(np.asarray(r)[ix + (i,)], _native_row(a, v, ix, i) * np.pi / 180, rtol=1e-9, atol=1e-12)))
+
+
+def _inside(a, ix, i):
+    m = _row_m(a, ix, i)
+    return m[0] * m[0] + m[1] * m[1] < 1
+
+
+def _post_nonneg(a, r):
+    N = _n(a.direction)
+    return _forall_rows(a, lambda ix, i: implies(_inside(a, ix, i), forall(0, N, lambda j: r[ix + (i, j)] >= 0, "j")))
+
+
+def _post_unit(a, r):
+    N = _n(a.direction)
+    step = T.div(360, N) if is_symbolic(N) else 360.0 / N
+    return _forall_rows(a, lambda ix, i: implies(_inside(a, ix, i), eq(Sum(0, N, lambda j: r[ix + (i, j)] * step), 1, rtol=1e-6, atol=1e-6)))
+
+
+def _post_shape(a, r):
+    want = tuple(a.a1.shape) + (_n(a.direction),)
+    got = tuple(r.shape)
+    return len(got) == len(want) and And(*[eq(x, y) for x, y in zip(got, want)])
+
+
+EST_INST = [("mem", "mem", {}, 2), ("maximum_entropy_method", "maximum_entropy_method", {}, 2),
+            ("mem2/default", "mem2", {}, 2), ("mem2/scipy", "mem2", {"solution_method": "scipy"}, 2),
+            ("mem2/newton", "mem2", {"solution_method": "newton"}, 2), ("mem2/approximate", "mem2", {"solution_method": "approximate"}, 2),
+            ("MEM2/scipy", "MEM2", {"solution_method": "scipy"}, 2), ("maximum_entrophy_method2/newton", "maximum_entrophy_method2", {"solution_method": "newton"}, 2),
+            ("mem2/scipy,one_spectrum", "mem2", {"solution_method": "scipy"}, 1), ("mem,one_spectrum", "mem", {}, 1),
+            ("mem2/newton,two_leading_dims", "mem2", {"solution_method": "newton"}, 3), ("mem,two_leading_dims", "mem", {}, 3)]
+EST_BAD = [("unknown_method", "mem3", {}, 2), ("mem2/unknown_solution_method", "mem2", {"solution_method": "secant"}, 2)]
+_GOOD = {lab for lab, *_ in EST_INST}
+# with two leading dimensions (merged by reshape: div / mod index arithmetic) the shape and the row clause are proved; non-negativity and the unit integral
+# of a row follow from the row clause and the estimator's contract exactly as in the other instances and are not re-derived through the index arithmetic
+_GOOD12 = {lab for lab, _, _, rank in EST_INST if rank != 3}
+
+EST_REQ = [("uniform_grid_of_at_least_three_directions", lambda a: And(_n(a.direction) >= 3, uniform_degrees(a.direction, _n(a.direction)))),
+           ("dims", lambda a: And(*[d >= 0 for d in a.a1.shape]))]
+
+
+import os as _os
+_ONLY = _os.environ.get("C05_ONLY")      # debugging / mutant runs: restrict the instance lists below to labels containing this text
+
+
+def _sel(insts):
+    return [x for x in insts if _ONLY is None or _ONLY in x[0]]
+
+
+def _wit_estimate():
+    import numpy as np
+    rng = np.random.default_rng(11)
+    out = []
+    for lab, method, kw, rank in _sel(EST_INST):
+        N = int(rng.choice([8, 24, 36]))
+        shape = {1: (4,), 2: (2, 3), 3: (2, 3, 2)}[rank]
+        # Newton: realisable quadruples only.  On unrealisable ones the iteration does not converge and amplifies last-bit differences between
+        # the batch and the single-row call of the COMPILED code to O(1e-2) (NOTES-C05.md, finding "Newton batch bits"); over the reals, which is
+        # what the row clause proves, there is no such dependence
+        newton = _variant_of(method, kw.get("solution_method", "newton")) == "newton"
+        quads = np.array([von_mises_moments(rng) if (k % 2 == 0 or newton) else unrealisable_moments(rng) for k in range(int(np.prod(shape)))])
+        d = {n_: quads[:, k].reshape(shape).copy() for k, n_ in enumerate(("a1", "b1", "a2", "b2"))}
+        d["direction"] = np.linspace(0, 360, N, endpoint=False) + (0.0 if rank != 2 else float(rng.uniform(0, 20)))
+        d["method"] = method
+        d.update(kw)
+        out.append((lab, d))
+    return [(lambda w=w: w) for w in out]
+
+
+estimate = Contract(
+    E + "estimate.py::estimate_directional_distribution",
+    instances=[(lab, _p_estimate(m, kw, rank)) for lab, m, kw, rank in _sel(EST_INST + EST_BAD)],
+    requires=EST_REQ,
+    ensures=[("leading_shape_of_the_input_plus_directions", _post_shape, _GOOD),
+             ("each_row_is_the_estimator_of_its_own_moments_per_degree", _post_rows, _GOOD),
+             ("non_negative", _post_nonneg, _GOOD12),
+             ("unit_integral_in_degrees", _post_unit, _GOOD12)],
+    raises={"ValueError": lambda a: _variant_of(a.method, a.__dict__.get("solution_method", "newton")) is None,
+            "Exception": lambda a: _variant_of(a.method, "newton") is None},
+    callees={MEM_BATCH.target: MEM_BATCH, MEM2_BATCH.target: MEM2_BATCH},
+    witness=_wit_estimate(),
+)
+
+# ------------------------------------------------------------------ 1D -> 2D (-> 1D): FrequencySpectrum.as_frequency_direction_spectrum
+from contracts.spec_common import spectrum as _spectrum, Spec as _Spec, native_spectrum as _native_spectrum, NAME_F, NAME_D, NAME_E, P as _P, S as _S, fill0 as _fill0
+import contracts.C01 as _C01
+import pyvc.models.xr as _xr   # noqa
+
+
+def _estimate_result(mk, a):
+    """call-site model of estimate_directional_distribution (its contract above): array of the leading shape + (N,) whose rows are the
+    estimator of the row's own moments per degree, non-negative with unit integral in degrees for a1^2+b1^2 < 1"""
+    st = mk.st
+    ms = [st.deref(x) for x in (a.a1, a.b1, a.a2, a.b2)]
+    direction = st.deref(a.direction)
+    N = direction.shape[0]
+    kw = st.deref(a.kwargs) if hasattr(a, "kwargs") else {}
+    v = _variant_of(st.deref(a.method), st.deref(kw.get("solution_method", "newton")) if isinstance(kw, dict) else "newton")
+    if v is None or not all(isinstance(x, _Arr) and x.ndim == 2 for x in ms):
+        raise Unsupported("estimate_directional_distribution called outside the instances of its contract")
+    shape = tuple(ms[0].shape) + (N,)
+    res = _Arr(shape, lambda ix, ms=ms, v=v: T.mul(est_term(v, ix[2], [x.get((ix[0], ix[1])) for x in ms]), T.div(T.PI, 180)), (), "real")
+    return st.alloc(res, "distribution")
+
+
+class _EstArgs:
+    """view of the callee's arguments for the clauses of `estimate` used at a call site (method / solution_method as attributes)"""
+
+    def __init__(self, a):
+        self.__dict__.update(a.__dict__)
+        kw = a.__dict__.get("kwargs") or {}
+        if isinstance(kw, dict) and "solution_method" in kw:
+            self.__dict__["solution_method"] = kw["solution_method"]
+
+
+estimate_at_call_sites = Contract(
+    estimate.target,
+    requires=[(lab, (lambda fn: lambda a: fn(_EstArgs(a)))(fn)) for lab, fn in EST_REQ],
+    ensures=[("non_negative", lambda a, r: _post_nonneg(_EstArgs(a), r)), ("unit_integral_in_degrees", lambda a, r: _post_unit(_EstArgs(a), r))],
+    options={"result": _estimate_result},
+)
+
+
+def _p_as2d(method, solution_method):
+    def p(mk):
+        return {"self": _spectrum(mk, "1d", nan=False, moments=True), "number_of_directions": mk.size("N"), "method": method, "solution_method": solution_method}
+    return p
+
+
+AS2D_INST = [("mem", "mem", "scipy"), ("mem2/scipy", "mem2", "scipy"), ("mem2/newton", "mem2", "newton"), ("mem2/approximate", "mem2", "approximate")]
+
+
+def _src(a):
+    return a.self.dataset.vars
+
+
+def _as2d_density(a, r):
+    v = _variant_of(a.method, a.solution_method)
+    sp = _Spec(a.self)
+    vs = _src(a)
+    E2 = r.dataset.vars[NAME_E].arr
+    N = a.number_of_directions
+    return forall(0, sp.np_, lambda p: forall(0, sp.nf, lambda i: forall(0, N, lambda j: eq(
+        E2[p, i, j], est_term(v, j, [vs[m].arr[p, i] for m in ("a1", "b1", "a2", "b2")]) * T.div(T.PI, 180) * vs[NAME_E].arr[p, i]), "j"), "i"), "p")
+
+
+def _as2d_grid(a, r):
+    N = a.number_of_directions
+    th = r.dataset.coords[NAME_D]
+    f2, f1 = r.dataset.coords[NAME_F], a.self.dataset.coords[NAME_F]
+    E2 = r.dataset.vars[NAME_E]
+    return And(eq(th.shape[0], N), forall(0, N, lambda j: eq(th[j], j * T.div(360, N)), "j"),
+               eq(f2.shape[0], f1.shape[0]), forall(0, f1.shape[0], lambda i: eq(f2[i], f1[i]), "i"),
+               tuple(E2.dims) == (_P, NAME_F, NAME_D), E2.nan is None,
+               r._o.cls.qualname == "FrequencyDirectionSpectrum")
+
+
+def _as2d_rest(a, r):
+    vs, src = r.dataset.vars, _src(a)
+    npnt = src[NAME_E].arr.shape[0]
+    t2, t1 = r.dataset.coords[_P], a.self.dataset.coords[_P]
+
+    def same(v):
+        x, y = vs[v], src[v]
+        flags = (x.nan is None and y.nan is None) or (x.nan is not None and y.nan is not None and forall(0, npnt, lambda p: x.nan[p] == y.nan[p], "p"))
+        return And(tuple(x.dims) == (_P,), eq(x.arr.shape[0], npnt), forall(0, npnt, lambda p: eq(x.arr[p], y.arr[p]), "p"), flags)
+    return And(set(vs) == {NAME_E, "depth", "latitude", "longitude"}, *[same(v) for v in ("depth", "latitude", "longitude")],
+               eq(t2.shape[0], npnt), forall(0, npnt, lambda p: eq(t2[p], t1[p]), "p"))
+
+
+def _as2d_native(a, r):
+    """executable twin: the result against the row-by-row estimate of the real code, the grid, the carried variables and the round trip"""
+    import numpy as np
+    s1 = a.self
+    N = int(a.number_of_directions)
+    v = _variant_of(a.method, a.solution_method)
+    ok = type(r).__name__ == "FrequencyDirectionSpectrum"
+    ok = ok and np.allclose(r.dataset[NAME_D].values, np.arange(N) * 360.0 / N) and np.array_equal(r.dataset[NAME_F].values, s1.dataset[NAME_F].values)
+    E1 = s1.dataset[NAME_E].values
+    lead = E1.shape[:-1]
+    rows = type("A", (), {})()
+    rows.__dict__.update({m: s1.dataset[m].values for m in ("a1", "b1", "a2", "b2")})
+    rows.__dict__["direction"] = r.dataset[NAME_D].values
+    E2 = r.dataset[NAME_E].values
+    for ix in np.ndindex(*lead):
+        for i in range(E1.shape[-1]):
+            ok = ok and np.allclose(E2[ix + (i,)], _native_row(rows, v, ix, i) * np.pi / 180 * E1[ix + (i,)], rtol=1e-9, atol=1e-12)
+    for name in ("depth", "latitude", "longitude"):
+        ok = ok and np.allclose(r.dataset[name].values, s1.dataset[name].values, equal_nan=True)
+    ok = ok and np.array_equal(r.dataset["time"].values, s1.dataset["time"].values)
+    ok = ok and np.allclose(r.e.values, E1, rtol=1e-9, atol=1e-12) and np.allclose(r.m0().values, s1.m0().values, rtol=1e-9, atol=1e-12)
+    return bool(ok)
+
+
+def _dual(fn):
+    return lambda a, r: fn(a, r) if hasattr(r, "_o") else True
+
+
+def _wit_as2d():
+    import numpy as np
+    from ocean_science_utilities.wavespectra.spectrum import create_1d_spectrum
+    rng = np.random.default_rng(3)
+    out = []
+    for lab, method, sm in _sel(AS2D_INST):
+        nf, npnt, N = 5, 2, int(rng.choice([12, 24, 36]))
+        quads = np.array([von_mises_moments(rng) if (k % 2 == 0 or sm == "newton") else unrealisable_moments(rng) for k in range(nf * npnt)]).reshape(npnt, nf, 4)
+        f = np.linspace(0.05, 0.5, nf)
+        s1 = create_1d_spectrum(f, rng.random((npnt, nf)) + 0.1, np.arange(npnt) * 3600, np.array([10.0, 20.0]), np.array([-120.0, -121.0]),
+                                a1=quads[..., 0], b1=quads[..., 1], a2=quads[..., 2], b2=quads[..., 3], depth=np.array([30.0, np.inf]))
+        out.append((lab, {"self": s1, "number_of_directions": N, "method": method, "solution_method": sm}))
+    return [(lambda w=w: w) for w in out]
+
+
+AS2D_REQ = [("at_least_three_directions", lambda a: a.number_of_directions >= 3),
+            ("dims", lambda a: And(_Spec(a.self).np_ >= 0, _Spec(a.self).nf >= 0))]
+
+
+def _native_as2d(kw, inst):
+    out = dict(kw)
+    if isinstance(kw["self"], dict):
+        out["self"] = _native_spectrum(kw["self"])
+    return out
+
+
+as_2d = Contract(
+    _S + "FrequencySpectrum.as_frequency_direction_spectrum",
+    instances=[(lab, _p_as2d(m, sm)) for lab, m, sm in _sel(AS2D_INST)],
+    requires=AS2D_REQ,
+    ensures=[("density_is_the_estimated_distribution_of_the_own_moments_times_e", _dual(_as2d_density)),
+             ("uniform_direction_grid_same_frequencies", _dual(_as2d_grid)),
+             ("time_position_depth_carried_over", _dual(_as2d_rest)),
+             ("executable_twin", lambda a, r: True if hasattr(r, "_o") else _as2d_native(a, r))],
+    callees={estimate.target: estimate_at_call_sites},
+    native=_native_as2d, witness=_wit_as2d(),
+)
+
+
+# round trip: the 2D spectrum's own e (directional sum with its own bin widths: C01/C02 contracts of direction_step and e) applied to the result
+def _round_trip_call(interp, st, fv, args):
+    s2 = interp.call_function(st, fv, [], dict(args))
+    return interp.getattr(st, s2, "e")
+
+
+def _round_trip_native(kw, inst):
+    return kw["self"].as_frequency_direction_spectrum(kw["number_of_directions"], method=kw["method"], solution_method=kw["solution_method"]).e
+
+
+def _round_trip_post(a, r):
+    sp = _Spec(a.self)
+    if hasattr(r, "_o"):
+        vs = _src(a)
+        inside = lambda p, i: vs["a1"].arr[p, i] * vs["a1"].arr[p, i] + vs["b1"].arr[p, i] * vs["b1"].arr[p, i] < 1
+        return forall(0, sp.np_, lambda p: forall(0, sp.nf, lambda i: implies(inside(p, i), And(
+            Not(r.nan[p, i]) if r.nan is not None else True, eq(r.arr[p, i], vs[NAME_E].arr[p, i]))), "i"), "p")
+    import numpy as np
+    return bool(np.allclose(np.asarray(r.values), a.self.dataset[NAME_E].values, rtol=1e-9, atol=1e-12))
+
+
+round_trip = Contract(
+    _S + "FrequencySpectrum.as_frequency_direction_spectrum", label="round_trip_1d_2d_1d",
+    instances=[(lab, _p_as2d(m, sm)) for lab, m, sm in _sel(AS2D_INST)],
+    requires=AS2D_REQ,
+    ensures=[("integrating_the_2d_spectrum_over_direction_returns_e", _round_trip_post)],
+    call=_round_trip_call, callees={estimate.target: estimate_at_call_sites, _C01.direction_step.target: _C01.direction_step},
+    native=_native_as2d, witness=_wit_as2d(), options={"native_call": _round_trip_native},
+)
+
 # ------------------------------------------------------------------ bounded: the four variants on compiled code
 VARIANTS = [("mem", {}), ("mem2", {"solution_method": "scipy"}), ("mem2", {"solution_method": "newton"}),
             ("mem2", {"solution_method": "approximate"})]
@@ -225,9 +762,57 @@ def _bounded_variants(tier, seed):
                        "unrealisable quadruples with a1^2+b1^2<0.98; oracle: no exception, D>=0, sum D*360/N = 1 (1e-6), each row equals the result computed alone")}
 
 
-BOUNDED = [Bounded("estimators.compiled", _bounded_variants, "validity, returns-without-raising and batch independence of the four variants as they run")]
+def _bounded_newton_batch_bits(tier, seed):
+    """runs the comparison in a FRESH interpreter: inside the check process (where the jitted solver has already been specialised for the witnesses) the two calls
+    agree bit for bit; in a fresh process, i.e. as a user would call the library, they do not"""
+    import json, subprocess, sys, os
+    p = subprocess.run([sys.executable, "-c", "import json, contracts.C05 as C; print('RESULT ' + json.dumps(C._newton_batch_bits_core()))"],
+                       capture_output=True, text=True, env=dict(os.environ), timeout=900)
+    for line in p.stdout.splitlines():
+        if line.startswith("RESULT "):
+            return json.loads(line[len("RESULT "):])
+    raise RuntimeError("fresh-interpreter run failed: " + (p.stderr or p.stdout)[-800:])
 
-CONTRACTS = [distribution, cholesky, solver]
-TRUSTED = []
+
+def _newton_batch_bits_core():
+    """recorded finding (known_key C05-batch-float-nonconverging): on an unrealisable quadruple inside the unit disc the compiled MEM2-Newton estimate
+    of a row computed in a batch of two differs from the same row computed alone (last-bit differences amplified by the non-converging iteration)"""
+    import numpy as np
+    from ocean_science_utilities.wavespectra.estimators.estimate import estimate_directional_distribution as est
+    q0 = [0.6312672570054401, 0.07140273595466981, 0.6056061028216168, 0.1387758834666472]
+    q1 = [0.1139165884539013, 0.757375170744544, -0.7789221416860909, -0.6700507784574791]
+    cases = [(36, q0, q1), (8, q0, q1), (24, q0, q1), (36, q0, [v * 0.999 for v in q1]), (36, q1, q1), (72, q0, q1)]
+    failures, evals = [], 0
+    for N, first, second in cases:
+        d = np.linspace(0, 360, N, endpoint=False)
+        for sm in ("newton", "scipy"):
+            evals += 1
+            pair = est(*[np.array([first[k], second[k]]) for k in range(4)], d, "mem2", solution_method=sm)
+            alone = est(*[np.array([second[k]]) for k in range(4)], d, "mem2", solution_method=sm)
+            if not np.allclose(pair[1], alone[0], rtol=1e-9, atol=1e-12):
+                failures.append({"kind": f"mem2/{sm}.batch_independence", "known_key": "C05-batch-float-nonconverging",
+                                 "inputs": {"N": N, "first_row": first, "second_row": second, "solution_method": sm, "a1^2+b1^2_of_second_row": second[0] ** 2 + second[1] ** 2},
+                                 "max_abs_difference_per_degree": float(np.abs(pair[1] - alone[0]).max()), "peak_density_per_degree": float(alone[0].max())})
+    return {"evaluations": evals, "distinct": evals, "failures": failures,
+            "domain": "estimate_directional_distribution(mem2, newton | scipy) on compiled code: the second row of a batch of two against the same row alone, one recorded "
+                      "unrealisable quadruple (a1^2+b1^2 = 0.587) and neighbours, N in {8, 24, 36, 72}; oracle: equal within rtol 1e-9"}
+
+
+BOUNDED = [Bounded("estimators.compiled", _bounded_variants, "validity, returns-without-raising and batch independence of the four variants as they run"),
+           Bounded("batch_independence_nonconverging_newton", _bounded_newton_batch_bits,
+                   "recorded input on which the compiled Newton variant is not batch independent in floating point (known finding C05-batch-float-nonconverging)")]
+
+CONTRACTS = [distribution, cholesky, solver, direction_increment, estimate, as_2d, round_trip]
+TRUSTED = ["ndarray.reshape in C order (same shape / leading unit axis added or removed / two leading axes merged or split) and numpy.prod of a shape tuple: pyvc/models/npshape_est.py",
+           "the point estimators at the call site of estimate_directional_distribution (mem, mem2) are functions of one row's own moments on the call's grid, each row >= 0 with "
+           "sum D * (360/N)(pi/180) = 1 for a1^2+b1^2 < 1 on a uniform grid of N >= 3 directions: verified for the MEM2 distribution constructor and every exit of the Newton solver, "
+           "ASSUMED for MEM (complex arithmetic) and scipy's root finder; the batch loops of mem.py / mem2.py themselves are NOT under contract (stores through views) - bounded check",
+           "xarray library contracts of pyvc/models/xr.py; direction_step of the 2D spectrum by its C01 contract",
+           "finite e(f) and moments in the 1D spectrum (NaN cells: bounded check only); leading dimensions collapsed into one (rank-1 and (n, 3, nf) inputs of estimate.py as extra instances)"]
 EXPLANATION = ("mem2_directional_distribution proved non-negative with unit integral for any finite multipliers; every return path of the MEM2 Newton solver proved to return such a distribution; "
-               "MEM, scipy, estimate.py normalisation, batch independence and no-raise on compiled code are a bounded check over seeded moment quadruples")
+               "get_direction_increment proved to be the mean of the wrapped forward and backward differences, = (360/N) pi/180 = 2 pi/N on a uniform grid of N >= 3 directions and summing to 2 pi on any "
+               "ascending grid covering the circle (induction lemmas); estimate_directional_distribution (12 method / solution_method / rank instances) proved to hand the estimator the caller's grid in radians "
+               "and every row its own moments, to return the leading shape + (N,), each row = estimator of that row's moments times pi/180, >= 0, sum D * 360/N = 1, unknown method / solution method raise; "
+               "FrequencySpectrum.as_frequency_direction_spectrum proved to return D[p,f,j] e[p,f] on the uniform N-grid with time / position / depth carried over, and the 2D spectrum's own e(f) of the result "
+               "proved equal to the source e(f) (round trip); the row loops of mem / mem2_newton / mem2_scipy_root_finder, MEM's formula and scipy are a bounded check on compiled code, which also records the "
+               "known floating-point finding C05-batch-float-nonconverging")
